@@ -386,3 +386,46 @@ func VerifC03_SystemBytes() {
 	s := sym4()
 	vsymAssert(ToSystemBytes(FromSystemBytes(s)) == s, "inverse-2")
 }
+
+// VerifC03_LargeBody: messages whose length crosses the 2^16 boundary of the 4-byte length prefix
+// (message length 65535, 65536, 65537 and 100010): the prefix written by ToBytes equals the E37
+// reference, equals what the connection hands to the socket, and the frame decodes back.
+func VerifC03_LargeBody() {
+	vsymExpect("checked")
+	// a Binary item of n bytes encodes to 4+n bytes (3 length bytes above 65535) or 3+n below
+	sizes := []int{65522, 65521, 65523, 100000 - 4}
+	n := sizes[vsymChoose(len(sizes))]
+	payload := make([]byte, n)
+	for i := range payload {
+		payload[i] = byte(i * 31)
+	}
+	payload[0], payload[n-1] = vsymU8(), vsymU8()
+	item := secs2.B(payload)
+	sid, sys := vsymU16(), sym4()
+	msg, err := NewDataMessage(vsymU8()&0x7F, 1, false, sid, sys, item)
+	vsymAssert(err == nil, "large-message-built")
+	if err != nil {
+		return
+	}
+	vsymReach("checked")
+	body := item.ToBytes()
+	got := msg.ToBytes()
+	total := uint32(10 + len(body))
+	vsymAssert(len(got) == 4+int(total), "frame-length")
+	vsymAssert(got[0] == byte(total>>24) && got[1] == byte(total>>16) && got[2] == byte(total>>8) && got[3] == byte(total), "length-prefix-big-endian-all-four-bytes")
+	wire := flatten(buildFrameBuffers(msg))
+	vsymAssert(len(wire) == len(got), "socket-length")
+	if len(wire) == len(got) {
+		for _, i := range []int{0, 1, 2, 3, 4, 13, 14, len(got) - 1} {
+			vsymAssert(wire[i] == got[i], "socket-bytes-equal-ToBytes")
+		}
+	}
+	dec, derr := DecodeHSMSMessage(got)
+	vsymAssert(derr == nil && dec != nil, "large-frame-decodes")
+	if derr == nil && dec != nil {
+		back := dec.ToBytes()
+		vsymAssert(len(back) == len(got) && back[1] == got[1] && back[2] == got[2] && back[len(back)-1] == got[len(got)-1], "large-frame-reserialises")
+	}
+	mb, merr := msg.Codec().MarshalBinary()
+	vsymAssert(merr == nil && len(mb) == len(got) && mb[1] == got[1], "marshal-large")
+}
